@@ -23,8 +23,9 @@ VARIABLES l,      \* cursor
           gn,     \* node count of the current graph (nodes 1..gn)
           gIn,    \* gIn[v]: set of <<u, w>>
           gOut,   \* gOut[u]: set of successors
-          gTW     \* gTW[s][t]: true weights (extended integers)
-tvars == <<l, gn, gIn, gOut, gTW>>
+          gTW,    \* gTW[s][t]: true weights (extended integers)
+          gH      \* D* Lite: the heuristic table handed to the current planner (<<>>: none)
+tvars == <<l, gn, gIn, gOut, gTW, gH>>
 
 Ev == TraceLog[l]
 
@@ -88,6 +89,10 @@ Graph ==
     /\ \A v \in 1 .. Ev.n : \A x \in gIn'[v] : v \in gOut'[x[1]]
     /\ \A u \in 1 .. Ev.n : \A v \in gOut'[u] : \E x \in gIn'[v] : x[1] = u
     /\ gTW' = [s \in 1 .. Ev.n |-> RowB(Ev.n, gIn', gOut', s)]
+    \* a new world of a living D* Lite planner: its heuristic must stay dominated by the edge costs
+    /\ gH' = IF Ev.r = "dstar-world" THEN gH ELSE <<>>
+    /\ (Ev.r = "dstar-world" /\ gH # <<>>) =>
+          \A v \in 1 .. Ev.n : \A x \in gIn'[v] : gH[x[1]][v] <= x[2]
 
 RowMatches(s, w, p) == \A t \in 1 .. gn :
     /\ w[t] = gTW[s][t]
@@ -106,7 +111,7 @@ Sssp ==
             /\ Ev.ok = ~NegCycleFrom(Ev.s)
             /\ Ev.ok => RowMatches(Ev.s, Ev.w, Ev.p)
             /\ ~Ev.ok => \A t \in 1 .. gn : gTW[Ev.s][t] = PInf => Ev.w[t] = PInf
-    /\ UNCHANGED <<gn, gIn, gOut, gTW>>
+    /\ UNCHANGED <<gn, gIn, gOut, gTW, gH>>
 
 \* point-to-point queries (DijkstraFromTo, AStar with the null heuristic): when a negative edge is
 \* reachable a panic or any answer is allowed by the documentation
@@ -116,7 +121,7 @@ Pt ==
     /\ ~NegEdgeFrom(Ev.s) => /\ ~Ev.panic
                              /\ Ev.w = gTW[Ev.s][Ev.t]
                              /\ PathOK(Ev.s, Ev.t, Ev.p, gTW[Ev.s][Ev.t])
-    /\ UNCHANGED <<gn, gIn, gOut, gTW>>
+    /\ UNCHANGED <<gn, gIn, gOut, gTW, gH>>
 
 \* all-pairs: DijkstraAllPaths panics iff any negative edge; FloydWarshall / Johnson ok = FALSE iff
 \* any negative cycle; FloydWarshall's weights stay valid (and -inf on affected pairs) even then
@@ -130,7 +135,7 @@ Apsp ==
                 LET q == Ev.pp[i] e == gTW[q.s][q.t]
                 IN IF e = NInf THEN Len(q.p) = 0 /\ q.w = NInf
                    ELSE q.w = e /\ PathOKAlt(q.s, q.t, q.p, e)
-    /\ UNCHANGED <<gn, gIn, gOut, gTW>>
+    /\ UNCHANGED <<gn, gIn, gOut, gTW, gH>>
 
 \* all shortest paths s -> t (AllTo / AllBetween): exactly the shortest simple paths
 All ==
@@ -143,7 +148,7 @@ All ==
                   /\ Cardinality(ps) = Len(Ev.ps)                  \* distinct
                   /\ Len(Ev.ps) >= 1
                   /\ AllPositive => Sat(Len(Ev.ps)) = CountShortest(Ev.s)[Ev.t]
-    /\ UNCHANGED <<gn, gIn, gOut, gTW>>
+    /\ UNCHANGED <<gn, gIn, gOut, gTW, gH>>
 
 \* Yen: loopless, distinct, non-decreasing, first one optimal, within k and the cost bound
 \* (cost code 99: unbounded).  "Omits no cheaper path" is judged only in the enumeration bound of
@@ -164,18 +169,30 @@ Yen ==
                    /\ wt[1] = e[2]
                    /\ \A i \in 1 .. n - 1 : wt[i] <= wt[i + 1]
                    /\ Ev.c # 99 => \A i \in 1 .. n : wt[i] <= e[2] + Ev.c
-    /\ UNCHANGED <<gn, gIn, gOut, gTW>>
+    /\ UNCHANGED <<gn, gIn, gOut, gTW, gH>>
 
 (* D* Lite (graph/path/dynamic): the recorder logs the planner's world as a "graph" event after    *)
 (* every UpdateWorld, the answer of Path() and every Step().  After every action Path() must be a    *)
 (* real walk here -> goal in the current world of the true weight; Step returns false exactly at    *)
 (* the goal or when the goal is unreachable, and otherwise moves along an optimal edge.             *)
+\* a planner is created with the heuristic table h (integers): the specification accepts it only
+\* if it is consistent (h(a,a) = 0, triangle inequality) and dominated by every edge cost of the
+\* current world; later worlds are checked in Graph.  Under these conditions D* Lite must be exact.
+DNew ==
+    /\ Ev.op = "dnew"
+    /\ Len(Ev.h) = gn
+    /\ \A a \in 1 .. gn : Ev.h[a][a] = 0
+    /\ \A a, b, c \in 1 .. gn : Ev.h[a][c] <= Ev.h[a][b] + Ev.h[b][c]
+    /\ \A v \in 1 .. gn : \A x \in gIn[v] : Ev.h[x[1]][v] <= x[2]
+    /\ gH' = Ev.h
+    /\ UNCHANGED <<gn, gIn, gOut, gTW>>
+
 DPath ==
     /\ Ev.op = "dpath"
     /\ ~Ev.panic
     /\ Ev.w = gTW[Ev.here][Ev.goal]
     /\ PathOK(Ev.here, Ev.goal, Ev.p, gTW[Ev.here][Ev.goal])
-    /\ UNCHANGED <<gn, gIn, gOut, gTW>>
+    /\ UNCHANGED <<gn, gIn, gOut, gTW, gH>>
 
 DStep ==
     /\ Ev.op = "dstep"
@@ -185,11 +202,11 @@ DStep ==
           /\ Ev.ret => /\ HasEdge(Ev.from, Ev.here) /\ IsFin(gTW[Ev.here][Ev.goal])
                         /\ W(Ev.from, Ev.here) + gTW[Ev.here][Ev.goal][2] = e[2]
           /\ ~Ev.ret => Ev.here = Ev.from
-    /\ UNCHANGED <<gn, gIn, gOut, gTW>>
+    /\ UNCHANGED <<gn, gIn, gOut, gTW, gH>>
 
-TraceInit == l = 1 /\ gn = 0 /\ gIn = <<>> /\ gOut = <<>> /\ gTW = <<>>
+TraceInit == l = 1 /\ gn = 0 /\ gIn = <<>> /\ gOut = <<>> /\ gTW = <<>> /\ gH = <<>>
 TraceNext == /\ l <= Len(TraceLog)
-             /\ (Graph \/ Sssp \/ Pt \/ Apsp \/ All \/ Yen \/ DPath \/ DStep)
+             /\ (Graph \/ Sssp \/ Pt \/ Apsp \/ All \/ Yen \/ DNew \/ DPath \/ DStep)
              /\ l' = l + 1
 TraceSpec == TraceInit /\ [][TraceNext]_tvars
 
